@@ -469,7 +469,7 @@ def axisPositions (nodes : List String) (parts : List (List String)) (raw : List
 
 /-- `SchemGraphPlacer.solve(node_spacing)`: both axes, scaled -/
 def placeCode (n : Netlist) : Except String (Layout × Solved × Solved) := do
-  let (all, rs) ← resolveAll rotCode n
+  let (all, rs) ← resolveAll (rotCodeP n.rots) n
   let g := makeGraphs rs
   let xparts := partition all g.xlinks
   let yparts := partition all g.ylinks
